@@ -932,8 +932,8 @@ func snapshotShape(sn *simrt.Snapshot) (string, bool, []string) {
 // passed while a goroutine could still run (no voluntary time passing, no starvation): then
 // everything the stop source's completion triggers has happened before the clock moves on.
 func stoppedBeforeStart(prop string, v *View, obs *ref.Facts) []Violation {
-	if v.C.Policy.PTime != 0 || v.C.Policy.Kind == "starve" {
-		return nil
+	if v.C.Policy.PTime != 0 || v.C.Policy.Kind == "starve" || (v.C.Policy.Kind == "holdat" && v.C.Policy.WindowUS > 0) {
+		return nil // time passes while a goroutine that could run is held back
 	}
 	at := map[string]int64{} // "step.stage.output" -> simulated time of production
 	for _, e := range v.Events {
